@@ -43,6 +43,7 @@ open Fs Apply
 def dotR : Bytes := b!".renamify"
 def pR : Path := [dotR]
 def pLock : Path := [dotR, b!"renamify.lock"]
+def pLockTmp : Path := [dotR, b!"renamify.lock.PID.tmp"]
 def pHist : Path := [dotR, b!"history.json"]
 def pPlanJson : Path := [dotR, b!"plan.json"]
 def pApplyLog : Path := [dotR, b!"apply.log"]
@@ -101,6 +102,7 @@ inductive Op where
   | write (p : Path) (c : Bytes)
   | chmod (p : Path) (m : Nat)
   | rename (a b : Path) (sa sb : Bool)
+  | link (a b : Path)
   | unlink (p : Path)
   | rmdir (p : Path)
   | logLine
@@ -145,6 +147,15 @@ def execOp (t : Tree) : Op → Except Errno Tree
     | some (.file c m), some (.file _ _) =>
       if sa || sb then .error .ENOTDIR else if a == b then .ok t else .ok (putNode (removeKey t a) b (.file c m))
     | _, _ => renameTS t a sa b sb
+  | .link a b =>
+    -- link(2): a second name for the same regular file; fails if the new name exists
+    match lookup t a with
+    | some (.file c m) =>
+      (match parentOk t b with
+       | .error e => .error e
+       | .ok () => if exists_ t b then .error .EEXIST else .ok (t ++ [(b, .file c m)]))
+    | some _ => .error .EINVAL
+    | none => .error .ENOENT
   | .unlink p =>
     match lookup t p with
     | none => .error .ENOENT
@@ -308,33 +319,64 @@ def mkdirs (p : Path) : M Unit := do
   mkdirDown missing.reverse
 
 -- lock.rs ------------------------------------------------------------------------------------------------
-/-- `LockFile::acquire`; a lock file that holds "pid:timestamp" (even half of it: the first half of the 16-18 bytes
-    still contains the colon, and the cut timestamp is ancient) belongs to a process that no longer runs and is
-    removed; an EMPTY file does not split into two parts: it is left alone and `create_new` then fails
-    (`stale = false`), or it is removed as abandoned (`stale = true`).  When writing the content fails the empty
-    file stays (`cleans = false`) or is removed again (`cleans = true`). -/
-def acquireF (stale cleans : Bool) : M Unit := do
+/-- `LockFile::acquire`.  An existing lock file that holds "pid:timestamp" (even half of it: the first half of the
+    16-18 bytes still contains the colon, and the cut timestamp is ancient) belongs to a process that no longer runs
+    and is removed.  A file that is NOT of that form (in the model: an empty one) is left alone, so that creating
+    the lock then fails for ever (`stale = false`), or is removed as abandoned (`stale = true`).
+    `byLink = false`: the lock file is created with `create_new` and written afterwards — it exists EMPTY in
+    between; when the write fails the empty file stays (`cleans = false`) or is removed again (`cleans = true`).
+    `byLink = true` (repo commit 35d666f): the content goes to the private `renamify.lock.<pid>.tmp` (`fs::write`),
+    which is published complete with `hard_link` (fails if the lock exists) and then removed whatever the link
+    returned; a failing `fs::write` returns at once and may leave the temporary file. -/
+def removeOldLock (stale : Bool) : M Unit := do
   let t ← getTree
   match lookup t pLock with
   | some (.file c _) => if !c.isEmpty || stale then doOp (.unlink pLock) else pure ()
   | _ => pure ()
+
+def acquireF (byLink stale cleans : Bool) : M Unit := do
+  removeOldLock stale
   mkdirs pR
-  doOp (.openw pLock false true)
-  if cleans then do
-    let r ← tryCatch (writeAll pLock lockText)
+  if byLink then do
+    doOp (.openw pLockTmp true false)
+    writeAll pLockTmp lockText
+    let r ← tryOp (.link pLockTmp pLock)
+    ignoreErr (doOp (.unlink pLockTmp))
     match r with
     | none => pure ()
-    | some e => do
-      ignoreErr (doOp (.unlink pLock))
-      throw e
-  else writeAll pLock lockText
+    | some e => throw (.io e)
+  else do
+    doOp (.openw pLock false true)
+    if cleans then do
+      let r ← tryCatch (writeAll pLock lockText)
+      match r with
+      | none => pure ()
+      | some e => do
+        ignoreErr (doOp (.unlink pLock))
+        throw e
+    else writeAll pLock lockText
 
-def acquire : M Unit := acquireF ExecFlags.emptyLockIsStale ExecFlags.lockWriteFailureCleans
+def acquire : M Unit :=
+  acquireF ExecFlags.publishByLink ExecFlags.emptyLockIsStale ExecFlags.lockWriteFailureCleans
 
-/-- `Drop for LockFile` -/
-def dropLock : M Unit := do
+/-- `Drop for LockFile`: remove the file if it exists (`checks = false`) / only if it still holds this process's
+    own content, which takes a read but no further mutating call (`checks = true`, repo commit d33e63d) -/
+def dropLockF (checks : Bool) : M Unit := do
   let t ← getTree
-  if exists_ t pLock then ignoreErr (doOp (.unlink pLock)) else pure ()
+  if checks then
+    (match lookup t pLock with
+     | some (.file c _) => if c == lockText then ignoreErr (doOp (.unlink pLock)) else pure ()
+     | _ => pure ())
+  else if exists_ t pLock then ignoreErr (doOp (.unlink pLock)) else pure ()
+
+def dropLock : M Unit := dropLockF ExecFlags.dropChecksContent
+
+/-- `let _lock = LockFile::acquire(…)?; body` — or just `body` for a command that does not take the lock -/
+def withLockF (locks : Bool) (body : M Unit) : M Unit :=
+  if locks then do
+    acquire
+    finallyM body dropLock
+  else body
 
 /-- whether `acquire` would succeed from this state (no op is issued) -/
 def acquirableF (stale : Bool) (t : Tree) : Bool :=
@@ -561,24 +603,30 @@ def entryUndo : UInt8 := 85
 def entryRedo : UInt8 := 82
 def entryOld : UInt8 := 79
 
-def cmdRename (plan : Plan) : M Unit := do
-  acquire
-  finallyM (do
-    probe
-    mkdirs pR
-    applyPlanM { log := some (pLogFile idNew), id := idNew, entry := entryApply } plan) dropLock
+/-- the commands without the lock wrapper -/
+def bodyRename (plan : Plan) : M Unit := do
+  probe
+  mkdirs pR
+  applyPlanM { log := some (pLogFile idNew), id := idNew, entry := entryApply } plan
 
-def cmdApply (plan : Plan) : M Unit := do
+def bodyApply (plan : Plan) : M Unit := do
   applyPlanM { log := some (pLogFile idNew), id := idNew, entry := entryApply } plan
   ignoreErr (doOp (.unlink pPlanJson))
 
-def cmdRedo (plan : Plan) : M Unit :=
+def bodyRedo (plan : Plan) : M Unit :=
   applyPlanM { log := some pApplyLog, id := idRedo, entry := entryRedo } plan
 
-def cmdReplace (plan : Plan) : M Unit := do
+def bodyReplace (plan : Plan) : M Unit := do
   let t ← getTree
   if !exists_ t pR then mkdirs pR else pure ()
   applyPlanM { log := none, id := idNew, entry := entryApply } plan
+
+/-- the commands as they are: `rename` has always taken the workspace lock; whether `apply`, `redo`, `replace`
+    (and `undo`, below) do is read from the source (translate/execflags.py) -/
+def cmdRename (plan : Plan) : M Unit := withLockF true (bodyRename plan)
+def cmdApply (plan : Plan) : M Unit := withLockF ExecFlags.lockApply (bodyApply plan)
+def cmdRedo (plan : Plan) : M Unit := withLockF ExecFlags.lockRedo (bodyRedo plan)
+def cmdReplace (plan : Plan) : M Unit := withLockF ExecFlags.lockReplace (bodyReplace plan)
 
 -- undo.rs --------------------------------------------------------------------------------------------------
 def insertPair (le : (Path × Path) → (Path × Path) → Bool) (x : Path × Path) : List (Path × Path) → List (Path × Path)
@@ -638,12 +686,15 @@ def undoPatches : List (Path × Bytes) → Bool → M Bool
 
 /-- `undo_renaming`; `restore` lists (original path, original content) in the order the patches are applied
     (a `HashMap` in the code: any order) -/
-def cmdUndo (plan : Plan) (restore : List (Path × Bytes)) : M Unit := do
+def bodyUndo (plan : Plan) (restore : List (Path × Bytes)) : M Unit := do
   renameBack (undoDirs plan.rens)
   renameBack (undoFiles plan.rens)
   let bad ← undoPatches restore false
   if bad then throw .patchFailed
   else saveHist entryUndo
+
+def cmdUndo (plan : Plan) (restore : List (Path × Bytes)) : M Unit :=
+  withLockF ExecFlags.lockUndo (bodyUndo plan restore)
 
 -- running ----------------------------------------------------------------------------------------------------
 inductive Outcome where | ok | fail | panic | crashed
